@@ -150,6 +150,8 @@ def stop_continue_trace():
 
 def bytes_trace(byte_range, all_seconds=False, rng=None):
     ops = [{"op": "new"}, {"op": "mode", "v": "Assembly"}]
+    # non-numbers and infinities applied to the board's inputs first: whatever the board stores, a step over a stuck sequencer returns
+    ops += [{"op": "set_temp", "x": -1000000}, {"op": "set_ai1", "x": 2000000}, {"op": "set_ai2", "x": -2000000}]
     for b in byte_range:
         seconds = [0x10] if b < 240 else sorted({0x00, 0x01, 0x05, 0x10, 0x2C, 0x3F, 0x43, 0x47, 0x48, 0x4F, 0x5A, 0x6F, 0x70, 0xAA, 0xFF, b, b ^ 1, b - 16}
                                                 | set(rng.sample(range(256), 24) if rng else []))
